@@ -621,11 +621,12 @@ PROPS["C07"]["theorems"] = list(PROPS["C07"]["theorems"]) + ["Narwhal.Theorems.C
 PROPS["C07"]["audit_files"] = list(PROPS["C07"]["audit_files"]) + ["Narwhal/Model/Names.lean"]
 PROPS["C07"]["expect_theorems"] = list(PROPS["C07"]["expect_theorems"]) + [
     "Narwhal.Names.C07_unique_holder", "Narwhal.Names.C07_identify_iff_free", "Narwhal.Names.C07_holder_keeps_name",
-    "Narwhal.Names.C07_name_reusable", "Narwhal.Names.names_table_ok"]
+    "Narwhal.Names.C07_name_reusable", "Narwhal.Names.C07_reserved_during_cleanup", "Narwhal.Names.names_table_ok"]
 PROPS["C07"]["level_text"] += (" Every interleaving: registration and the end of a connection are each one critical section on the connection map "
                                "(read from c2s/router.rs on every run), and for every sequence of them a name has at most one holder, an IDENTIFY is "
-                               "acknowledged exactly when the name is free, nothing but its own end takes the name from its holder, and the name is free "
-                               "again once the holder has ended (Model/Names.lean). Name reuse during a slow clean-up is probed on the real server by the lat suite.")
+                               "acknowledged exactly when the name is neither held nor reserved by a clean-up still in progress, nothing but its own end "
+                               "takes the name from its holder, and the name is free again once the holder has ended and its clean-up has finished "
+                               "(Model/Names.lean). Name reuse during a slow clean-up is probed on the real server by the lat suite.")
 PROPS["C12"]["expect_theorems"] = list(PROPS["C12"]["expect_theorems"]) + ["Narwhal.Server.C12_substitution_keeps_answer", "Narwhal.Server.C12_substitution_no_foreign_id"]
 PROPS["C12"]["assumptions"] = ["requests are handled to quiescence one at a time (sequential model); pipelining and request timeouts are decided under C13 and by the lat suite",
                                "which replies exceed max_message_size is a parameter (`fits`) of the substitution theorems; the real sizes are exercised by the toolarge suite"]
